@@ -228,6 +228,8 @@ typedef struct {
 extern const bg_size BG_VERTEX_MAX;
 extern bg_size bg_ghost_scans;        /* ghost: neighbourhood scans of the running search (C19)  */
 extern VertexIndex bg_scratch_u;
+extern bg_size bg_ghost_pushes, bg_ghost_pushes_q; /* ghost: pushes of the finished search, and those of G_Q */
+extern VertexIndex bg_ghost_src;      /* ghost: the source of the running search */
 #define BG_QUEUE_LEN(q) ((q).nP + (q).nQ + (q).nO)
 #define BG_VECB_WF(v) ((v).nTrue == ((v).vP && (bg_size)G_P < (v).n ? 1 : 0) + ((v).vQ && G_P != G_Q && (bg_size)G_Q < (v).n ? 1 : 0) + (v).restTrue && \
                        (v).n <= ((bg_size)1 << 32) && (v).restTrue <= (v).n && (v).restTrue + BG_VECB_OBS(v) <= (v).n && \
@@ -241,6 +243,7 @@ typedef struct { bg_bool remP, remQ; bg_size remRest; bg_size restBound; VertexI
 #define BG_USET_WF(s) ((s).restCount < BG_CAP && (G_P != G_Q || !(s).hasQ))
 typedef struct { bg_size n; bg_size vP, vQ; } bg_vec_sz;
 typedef struct { bg_vec_sz first; bg_vec_u second; } bg_preds;
+typedef struct { bg_vec_sz first; struct bg_adj second; } bg_mpreds;
 extern bg_size bg_scratch_sz;
 /* ghost (lemma L7): the pair of the most recent label lookup */
 typedef struct { VertexIndex src, dst; } bg_ghost_lookup_t;
